@@ -113,15 +113,17 @@ class CovergroupModel(FieldCompositeModel):
         print("get_inst_coverage: %s" % self.coverage_calc_valid)
         if not self.coverage_calc_valid:
             self.coverage = 0.0
-            for cp in self.coverpoint_l:
-                self.coverage += cp.get_coverage()
-            for cp in self.cross_l:
-                self.coverage += cp.get_coverage()
+            # Weighted average over coverpoints and crosses
+            div = 0
+            for cp in self.coverpoint_l + self.cross_l:
+                weight = cp.options.weight if cp.options is not None else 1
+                self.coverage += cp.get_coverage() * weight
+                div += weight
             
             if (len(self.coverpoint_l)+len(self.cross_l)) == 0:
                 self.coverage = 100.0 # vacuously covered
-            else:
-                self.coverage /= (len(self.coverpoint_l) + len(self.cross_l))
+            elif div > 0:
+                self.coverage /= div
                 self.coverage = round(self.coverage, 4)
             self.coverage_calc_valid = True
             
